@@ -601,7 +601,7 @@ def _cfg(kind: str, d: dict) -> tuple[str, dict]:
         d["order"] = sched_order(kind, d)
     toks = [f"comp={kind}"]
     for k, v in d.items():
-        if k == "component":
+        if k in ("component", "multibit"):
             continue
         toks.append(f"{k}={','.join(map(str, v)) if isinstance(v, list) else v}")
     return "cfg " + " ".join(toks), d
@@ -745,14 +745,14 @@ def gen_multibit_cases(rng) -> list[Case]:
     documented behaviour holds (proposed finding); only model/implementation agreement is checked here."""
     cases = []
     for w in (2, 3, 4):
-        d = {"w": w, "cond": f"and:{rng.randrange(2, 1 << w)}", "def": rng.randrange(1 << w), "uc": 1}
+        d = {"w": w, "cond": f"and:{rng.randrange(2, 1 << w)}", "def": rng.randrange(1 << w), "uc": 1, "multibit": 1}
         cases.append(_case("filter", d, _u_ops(rng, w, 80, w <= 3), "witness"))
     return cases
 
 
 def more_cases(case: Case, rng):
     """Failing-input search around a diverging case: the same configuration with fresh stimulus."""
-    d = {k: v for k, v in case.desc.items() if k not in ("component", "order")}
+    d = {k: v for k, v in case.desc.items() if k not in ("component", "order", "multibit")}
     kind = case.desc["component"]
     for _ in range(20):
         n = d.get("n", d.get("k", 1))
@@ -800,6 +800,7 @@ def run(ctx: Check):
         "conflicting running pair or two pairs running (crossbar), both forwarding and buffering (collector)"
     )
     ctx.proof_stage()
+    ctx.replay_findings(replay_witness)
     rng = ctx.rng("gen")
     cases = gen_cases(ctx, rng, ctx.thorough)
     for c in cases:
@@ -807,12 +808,22 @@ def run(ctx: Check):
     procs = 1 if ctx.quick else 8
     lockstep(ctx, "transformers", "C18", cases, impl, monitor, more_cases, nontrivial, procs=procs)
     # outside the documented region (multi-bit condition value in use_condition mode): agreement only
-    lockstep(ctx, "transformers-filter-multibit", "C18", gen_multibit_cases(ctx.rng("mb")), impl, None, None, None, procs=1)
+    # (once the proposed finding is listed in known_findings.txt with a `match` on these descriptors, the monitor is
+    # switched on and its failures are counted as covered by the finding)
+    mb = gen_multibit_cases(ctx.rng("mb"))
+    mb_monitor = monitor if ctx.is_known(mb[0].desc) else None
+    lockstep(ctx, "transformers-filter-multibit", "C18", mb, impl, mb_monitor, None, None, procs=1)
     ctx.exhaustive = False
     ctx.note(
         "MethodFilter(use_condition=True) keeps only the least significant bit of the condition value "
         "(transformers.py:248-249); cases with a wider condition value are compared with the model but not monitored"
     )
+
+
+def replay_witness(w: dict) -> Optional[str]:
+    """Replay the witness of a (proposed/known) finding on the implementation; returns the failure or None."""
+    case = Case(w["cfg"], list(w["ops"]), w["desc"], "witness")
+    return monitor(case, impl(case))
 
 
 def replay(ctx: Check, body: dict):
